@@ -19,6 +19,12 @@ for n, ev in res.items():
         print(pid, n, "NOT CONFIRMED", ev.get("demo_clean"), ev.get("demo_patched"), ev.get("suite", [""])[0])
         continue
     os.makedirs(d, exist_ok=True)
+    try:
+        if "rebased" in json.load(open(f"{d}/meta.json")):
+            print(pid, n, "kept (rebased by hand)")
+            continue
+    except Exception:
+        pass
     shutil.copy(f"{wt}/patch{n}.diff", f"{d}/patch.diff")
     shutil.copy(f"{wt}/demo{n}.py", f"{d}/demo.py")
     ch = next((c for c in meta.get("changes", []) if f"patch{n}." in c.get("patch", "")), {})
